@@ -42,6 +42,7 @@ REQUIRED_THEOREMS = [
     "from_expression_getitem",
     # Props/C19Gap.lean (gap round): operator order for polar / spherical grids, gradient of a vector field
     "operators_use_component_order_polar", "operators_use_component_order_spherical",
+    "operators_use_component_order_spherical_tensor",
     "polar_conversion_commutes_with_vector_gradient_real", "polarVectorGradientCont_matches_kernel",
     # Props/C19Jac.lean: the Jacobian of the bipolar / bispherical systems is the derivative of pos_to_cart
     "bipolar_jacobian_hasDerivAt", "bisph_jacobian_hasDerivAt",
